@@ -277,7 +277,7 @@ func runC02(a runArgs) error {
 	lit := func(b []byte, origin string) { st.run(c02Input{lit: b}, origin) }
 
 	// hand-picked: the defects this property found (kept as regression inputs)
-	lit([]byte{0x09, 0x01, 1, 2, 3, 4, 5, 6, 7, 8, 9}, "corner")                        // stream TKL 9
+	lit([]byte{0x09, 0x01, 1, 2, 3, 4, 5, 6, 7, 8, 9}, "corner")                         // stream TKL 9
 	lit([]byte{0x0f, 0x01, 1, 2, 3, 4, 5, 6, 7, 8, 9, 10, 11, 12, 13, 14, 15}, "corner") // stream TKL 15
 	lit([]byte{0xf0, 0xff, 0xff, 0xff, 0xff, 0x01, 0x00}, "corner")                      // 4-byte extended length beyond 32 bits
 	lit([]byte{0xf0, 0x7f, 0xff, 0x00, 0x00, 0x01}, "corner")                            // at the encoder's limit
